@@ -17,6 +17,7 @@ import (
 	"flag"
 	"fmt"
 	"os"
+	"runtime"
 	"runtime/debug"
 	"runtime/pprof"
 	"strings"
@@ -63,6 +64,9 @@ func startWatchdog(stall time.Duration) {
 			}
 			if time.Since(since) > stall {
 				fmt.Fprintf(os.Stderr, "verif-watchdog: no progress for %v\n", stall)
+				buf := make([]byte, 1<<16)
+				n := runtime.Stack(buf, true)
+				os.Stderr.Write(buf[:n])
 				os.Exit(77)
 			}
 		}
